@@ -444,8 +444,22 @@ def compile_level(ctx):
 
         def _write(self):
             return False
-    fc = FeatureCompiler(build_font({"glyphs": [{"name": "a", "width": 1}]}), featureWriters=[KernFeatureWriter, GsubW, MarkFeatureWriter])
-    tagsq = [w.tableTag for w in fc.featureWriters]
-    ctx.count()
-    if tagsq != sorted(tagsq, key=lambda t: t != "GSUB"):
-        ctx.spec_failure({"writers": tagsq}, "GSUB writers are not placed before the others")
+    class GsubW2(GsubW):
+        features = frozenset(["ss01"])
+    # every way of spelling the writer list: classes, instances, mixed, with the default-writers ellipsis, several GSUB
+    # writers (their relative order is kept)
+    spellings = {"classes": [KernFeatureWriter, GsubW, MarkFeatureWriter],
+                 "instances": [KernFeatureWriter(), GsubW(), MarkFeatureWriter()],
+                 "mixed": [KernFeatureWriter, MarkFeatureWriter(), GsubW(), GsubW2],
+                 "ellipsis-instance": [..., GsubW()],
+                 "ellipsis-class": [..., GsubW2, GsubW()],
+                 "gsub-last-instance": [MarkFeatureWriter, KernFeatureWriter(), GsubW2(), GsubW()]}
+    for how, writers in spellings.items():
+        fc = FeatureCompiler(build_font({"glyphs": [{"name": "a", "width": 1}]}), featureWriters=writers)
+        tagsq = [w.tableTag for w in fc.featureWriters]
+        gs = [type(w).__name__ for w in fc.featureWriters if w.tableTag == "GSUB"]
+        want = [(w if isinstance(w, type) else type(w)).__name__ for w in writers if w is not ... and (w if isinstance(w, type) else type(w)).tableTag == "GSUB"]
+        ctx.count(); ctx.klass("writer list spelling: " + how)
+        if tagsq != sorted(tagsq, key=lambda t: t != "GSUB") or gs != want:
+            ctx.spec_failure({"writers_given": how, "order": [type(w).__name__ for w in fc.featureWriters]},
+                             "GSUB writers are not placed (in their given order) before the others")
